@@ -37,6 +37,7 @@ func checkC13(c *Ctx, r *Report) {
 	r.rule("C13.O3", "an auth middleware calls (*RouterAuthorizationCheck).Check with its own *gin.Context on every path, and never calls Next before", 1)
 	r.rule("C13.O4", "in Check, every path on the err != nil edge passes c.Abort() and a response with constant status 401", 2)
 	r.rule("C13.O5", "every implementation of NFContext.AuthorizationCheck returns nil only on the !OAuth2Required edge, otherwise the result of oauth.VerifyOAuth(token, ...)", 2)
+	r.rule("C13.O7", "the flag AuthorizationCheck reads is assigned from the NRF's declaration (customInfo.oauth2 of the registration answer)", 1)
 	r.rule("C13.O6", "the only HTTP serving calls in the module are on the server built by NewHttp2Server from the router newRouter returns; nothing serves the default mux", 2)
 
 	// registration method names: method set of gin.IRoutes minus Use, plus NoRoute/NoMethod.
@@ -106,6 +107,7 @@ func checkC13(c *Ctx, r *Report) {
 	x.checkO4()
 	x.checkO5()
 	x.checkO6()
+	x.checkO7()
 }
 
 // protected decides whether group value g is protected at instruction `at`.
@@ -780,4 +782,51 @@ func (x *c13) routerFromNewRouter(f *ssa.Function, at ssa.Instruction) (bool, st
 		}
 	}
 	return false, "Server.router holds " + last.Val.String() + " at the call, not the result of newRouter"
+}
+
+// checkO7: the premise "the NRF has declared OAuth2 mandatory" reaches the
+// check.  AuthorizationCheck reads CHFContext.OAuth2Required; that member is
+// useful only if it is assigned from the NRF's registration answer.  Every
+// assignment of the member is inspected: at least one must exist, and each
+// value assigned must depend on the look-up of customInfo["oauth2"] in the
+// answer (an assignment of a constant, or of a variable that no path connects
+// to the answer - e.g. an outer variable shadowed by `:=` - leaves the flag
+// false whatever the NRF says).
+func (x *c13) checkO7() {
+	c, r := x.c, x.r
+	n := 0
+	for _, f := range c.ModFuncs {
+		eachInstr(f, func(_ *ssa.BasicBlock, _ int, ins ssa.Instruction) {
+			st, ok := ins.(*ssa.Store)
+			if !ok {
+				return
+			}
+			fa, ok := st.Addr.(*ssa.FieldAddr)
+			if !ok || !typeIs(fa.X.Type(), ctxPath, "CHFContext") || fieldName(fa) != "OAuth2Required" {
+				return
+			}
+			n++
+			key := fmt.Sprintf("%s|assignment of OAuth2Required #%d", fnKey(f), n)
+			fromAnswer := false
+			for d := range depSet(f, st.Val) {
+				var m, k ssa.Value
+				switch y := d.(type) {
+				case *ssa.Lookup:
+					m, k = y.X, y.Index
+				default:
+					continue
+				}
+				if s, ok := constString(k); !ok || s != "oauth2" {
+					continue
+				}
+				if p, ok := pathOf(m); ok && len(p.Elems) > 0 && p.Elems[len(p.Elems)-1] == "CustomInfo" {
+					fromAnswer = true
+				}
+			}
+			r.check(fromAnswer, "C13.O7", key, posOf(c, st), "the value assigned depends on customInfo[\"oauth2\"] of the NRF's registration answer", "CHFContext.OAuth2Required is assigned "+describe(st.Val)+", which does not depend on customInfo[\"oauth2\"] of the NRF's answer: the flag stays false when the NRF declares OAuth2 mandatory, and every route is served without a token")
+		})
+	}
+	if n == 0 {
+		r.viol("C13.O7", "assignment of OAuth2Required", "", "nothing assigns CHFContext.OAuth2Required: AuthorizationCheck always takes the 'not required' branch")
+	}
 }
